@@ -102,8 +102,35 @@ P3_CONTRACT = ("    requires index < lines.len(),\n"
                "            &&& fold_shape(lines@[index as int]->instr, lines@[index + 1]->instr, lines@[index + 2]->instr, out->0) }),\n")
 PASS_CONTRACT = ("    requires forall|k: int| 0 <= k < lines@.len() ==> no_pushnil0_pop(lines@, k),\n"
                  "        lines.len() < usize::MAX,\n")
-PASS_INV = ("        invariant index <= lines.len(), lines.len() < usize::MAX, forall|k: int| 0 <= k < lines@.len() ==> no_pushnil0_pop(lines@, k),\n"
+PASS_INV = ("        invariant index <= lines.len(), lines.len() < usize::MAX, ret@.len() <= index, forall|k: int| 0 <= k < lines@.len() ==> no_pushnil0_pop(lines@, k),\n"
             "        decreases lines.len() - index,\n")
+
+P2_IMM_CLAUSES = ("        // with the flag off no immediate form is INTRODUCED (an existing one may be carried through)\n"
+                  "        (fired && !imm_int_ok && out_of(old(ret)@, final(ret)@) is Some && !is_int_imm(lines@[index as int]->instr) && !is_int_imm(lines@[index + 1]->instr))\n"
+                  "            ==> !is_int_imm(out_of(old(ret)@, final(ret)@)->0),\n"
+                  "        (fired && !imm_float_ok && out_of(old(ret)@, final(ret)@) is Some && !is_float_imm(lines@[index as int]->instr) && !is_float_imm(lines@[index + 1]->instr))\n"
+                  "            ==> !is_float_imm(out_of(old(ret)@, final(ret)@)->0),\n")
+PASS_ENSURES = "    ensures out@.len() <= lines@.len(),\n"
+PASS_IMM_ENSURES = ("        (!imm_int_ok && no_int_imm(lines@)) ==> no_int_imm(out@),\n"
+                    "        (!imm_float_ok && no_float_imm(lines@)) ==> no_float_imm(out@),\n")
+PASS_IMM_INV = ("            (!imm_int_ok && no_int_imm(lines@)) ==> no_int_imm(ret@), (!imm_float_ok && no_float_imm(lines@)) ==> no_float_imm(ret@),\n")
+OPT_CONTRACT = ("    requires\n"
+                "        // the translator emits no immediate forms (checked textually: translate_bytecode.rs names them only in gather_constants)\n"
+                "        no_int_imm(lines@), no_float_imm(lines@), lines.len() < usize::MAX,\n"
+                "    ensures\n"
+                "        // C05.opt.imm_index.fits: an immediate operand is a 16-bit constant-table index (instr_to_vminstr `as u16`).  Without immediate\n"
+                "        // forms every constant is carried by a PushInt/PushFloat line, so with at most 2^16 such lines every index fits;\n"
+                "        // with more, no immediate form may be introduced\n"
+                "        count_pushint(lines@) > 65536 ==> no_int_imm(out@),\n"
+                "        count_pushfloat(lines@) > 65536 ==> no_float_imm(out@),\n")
+OPT_COUNT_INV = ("        invariant it.index@ <= lines@.len(), lines@.len() < usize::MAX, n_int <= it.index@, n_float <= it.index@,\n"
+                 "            n_int == count_pushint(lines@.take(it.index@)), n_float == count_pushfloat(lines@.take(it.index@)),\n")
+OPT_LOOP_INV = "        invariant ret@.len() <= len, len < usize::MAX,\n"
+OPT_LOOP_IMM_INV = ("            !imm_int_ok ==> no_int_imm(ret@), !imm_float_ok ==> no_float_imm(ret@),\n"
+                    "            imm_int_ok == (count_pushint(lines0) <= 65536), imm_float_ok == (count_pushfloat(lines0) <= 65536),\n")
+OPT_LOOP_NOFLAG_INV = ("            count_pushint(lines0) > 65536 ==> no_int_imm(ret@), count_pushfloat(lines0) > 65536 ==> no_float_imm(ret@),\n")
+OPT_ASSUME = ("        // ASSUMED PRECONDITION of peephole2_helper on every pass (see no_pushnil0_pop): no `PushNil(0); Pop` window\n"
+              "        proof { assume(forall|k: int| 0 <= k < ret@.len() ==> no_pushnil0_pop(ret@, k)); }\n")
 
 INT_FOLD_SPEC = {'AddInt': 'int_add(a as int, *b as int)', 'SubInt': 'int_sub(a as int, *b as int)',
                  'MulInt': 'int_mul(a as int, *b as int)', 'DivInt': 'int_div(a as int, *b as int)',
@@ -194,6 +221,9 @@ def build(canary=False):
     parts.append(CPI + "// ---- real fn checked_pow_int (vm.rs) ----\n%s\n%s        r == cpi_full(a, b),\n{\n    %s%s}\n" % (
         sig, h['contract'], h['proof'], body))
     parts.append(gen.verus_support(variants, lay, tw))
+    narrow_txt, narrow = gen.verus_narrow_imm(variants)
+    parts.append(narrow_txt)
+    rew['narrow_imm_opcodes'] = len(narrow)
     impl = S.item(OPT, r'impl Instr \{')
     for meth, sname in PRED.items():
         pats = gen.reflect_matches(impl, meth)
@@ -212,7 +242,10 @@ def build(canary=False):
     rew['R1e'] = c2['R1e'] + c3['R1e']
     if c2['R1'] or c3['R1'] or c2['R1e'] != 1 or c3['R1e'] != 1:
         raise S.SliceError("let-chain shape of peephole helpers changed: %r %r" % (c2, c3))
-    p2 = splice_fn(p2raw, 'peephole2_helper', P2_CONTRACT, ensures_false=canary)
+    patched_imm = bool(re.search(r'fn peephole2_helper\([^)]*\bimm_int_ok: bool[^)]*\bimm_float_ok: bool', p2raw, re.S))
+    rew['imm_flags_present'] = patched_imm
+    p2c = P2_CONTRACT + (P2_IMM_CLAUSES if patched_imm else '')
+    p2 = splice_fn(p2raw, 'peephole2_helper', p2c, ensures_false=canary)
     p2e = splice_fn(p2raw.replace('fn peephole2_helper(', 'fn peephole2_helper__encodable(', 1), 'peephole2_helper__encodable',
                     P2_ENC_CONTRACT, ensures_false=canary)
     p3 = splice_fn(p3raw, 'peephole3_helper', P3_CONTRACT, ensures_false=canary)
@@ -247,12 +280,29 @@ def build(canary=False):
     rew['extra_items'] = extra_items
     # optimization_pass
     op = S.item(OPT, r'fn optimization_pass\(')
-    op = splice_fn(op, 'optimization_pass', PASS_CONTRACT, ret='out', ensures_false=canary)
+    op = splice_fn(op, 'optimization_pass', PASS_CONTRACT + PASS_ENSURES + (PASS_IMM_ENSURES if patched_imm else ''), ret='out', ensures_false=canary)
     k = op.count("    while index < lines.len() {\n")
     if k != 1:
         raise S.SliceError("optimization_pass: loop head not found")
-    op = op.replace("    while index < lines.len() {\n", "    while index < lines.len()\n" + PASS_INV + "    {\n")
+    op = op.replace("    while index < lines.len() {\n", "    while index < lines.len()\n" + PASS_INV.replace("        decreases", (PASS_IMM_INV if patched_imm else '') + "        decreases") + "    {\n")
     parts += ["// ---- real optimization_pass, loop invariant spliced ----\n", op, "\n"]
+    # optimize: the 16-bit immediate index obligation
+    oz = S.item(OPT, r'pub\(crate\) fn optimize\(')
+    oz = splice_fn(oz, 'optimize', OPT_CONTRACT, ret='out', ensures_false=canary)
+    first = "    let mut n_int = 0;\n" if patched_imm else "    let mut len = lines.len();\n"
+    if oz.count(first) != 1 or oz.count("    loop {\n") != 1:
+        raise S.SliceError("optimize: splice anchors not found")
+    oz = oz.replace(first, "    let ghost lines0 = lines@;\n" + first)
+    if patched_imm:
+        ch = "    for line in &lines {\n"
+        ce = "    let imm_int_ok = "
+        if oz.count(ch) != 1 or oz.count(ce) != 1:
+            raise S.SliceError("optimize: counting loop anchors not found")
+        oz = oz.replace(ch, "    for line in it: &lines\n" + OPT_COUNT_INV + "    {\n        proof { lemma_count_step(lines@, it.index@); }\n")
+        oz = oz.replace(ce, "    proof { assert(lines@.take(lines@.len() as int) == lines@); if lines@.len() > 0 { lemma_count_step(lines@, lines@.len() - 1); } }\n" + ce)
+    oz = oz.replace("    loop {\n", "    loop\n" + OPT_LOOP_INV + (OPT_LOOP_IMM_INV if patched_imm else OPT_LOOP_NOFLAG_INV) + "        decreases len,\n    {\n" + OPT_ASSUME)
+    parts += ["// ---- real optimize, contract + invariants + 1 assume spliced ----\n", oz, "\n"]
+    rew['assume_splices'] = 1
     # lifted int folds
     from . import kcrate
     fold_meta = {}
@@ -273,5 +323,5 @@ def build(canary=False):
     rew['R0'] = k
     sha = dict(impl=S.sha(S.item(OPT, r'impl Instr \{')), p1=S.sha(S.item(OPT, r'fn peephole1_helper\(')),
                p2=S.sha(S.item(OPT, r'fn peephole2_helper\(')), p3=S.sha(S.item(OPT, r'fn peephole3_helper\(')),
-               opass=S.sha(S.item(OPT, r'fn optimization_pass\(')), enum=S.sha(enum))
+               opass=S.sha(S.item(OPT, r'fn optimization_pass\(')), optimize=S.sha(S.item(OPT, r'pub\(crate\) fn optimize\(')), enum=S.sha(enum))
     return text, rew, fold_meta, sha
